@@ -22,6 +22,7 @@ Open Scope nat_scope.
 Section Judgement.
   Variable b : nat.
   Variable A : loc -> Prop.
+  Variable W : loc -> Prop.   (* old cells that may be written (in-place operations); empty for copy-on-write calls *)
   Variable h0 : list obj.
 
   Definition okv (v : val) : Prop :=
@@ -37,9 +38,13 @@ Section Judgement.
     | OInst _ d => Forall fok d
     end.
 
+  (* a cell that may be written: allocated by the call, or a writable (and allowed) old cell *)
+  Definition wr (l : loc) : Prop := b <= l \/ (W l /\ A l).
+  Definition wrv (v : val) : Prop := match v with VRef l => wr l | _ => True end.
+
   Definition sinv (s : state) : Prop :=
     b <= length (heap s) /\
-    (forall l, l < b -> nth_error (heap s) l = nth_error h0 l) /\
+    (forall l, l < b -> W l \/ nth_error (heap s) l = nth_error h0 l) /\
     (forall l o, b <= l -> nth_error (heap s) l = Some o -> obj_ok o).
 
   Definition sep {T} (m : M T) (Q : T -> Prop) : Prop :=
@@ -47,11 +52,25 @@ Section Judgement.
       sinv (snd (m s)) /\ match fst (m s) with Ok a => Q a | Err _ => True end.
 
   (* allowed old objects contain only allowed (or fresh) references *)
+  (* and: if some old cell may be written, every value is allowed (the judgement then
+     only confines writes; used with A := everything for in-place operations) *)
   Definition A_closed : Prop :=
-    forall l o, A l -> l < b -> nth_error h0 l = Some o -> obj_ok o.
+    (forall l o, A l -> l < b -> nth_error h0 l = Some o -> obj_ok o) /\
+    (forall l, W l -> l < b -> forall v, okv v).
+
+  Lemma obj_ok_all o : (forall v, okv v) -> obj_ok o.
+  Proof.
+    intro H. destruct o; simpl; rewrite Forall_forall; intros; unfold pok, fok; auto.
+  Qed.
 
   Lemma freshv_okv v : freshv b v -> okv v.
   Proof. destruct v; simpl; auto. Qed.
+  Lemma wr_okv l : wr l -> okv (VRef l).
+  Proof. intros [H|[_ H]]; simpl; auto. Qed.
+  Lemma wrv_okv v : wrv v -> okv v.
+  Proof. destruct v; simpl; auto. apply wr_okv. Qed.
+  Lemma freshv_wrv v : freshv b v -> wrv v.
+  Proof. destruct v; simpl; auto. intro H; left; exact H. Qed.
 
   Lemma sep_ret {T} (a : T) (Q : T -> Prop) : Q a -> sep (ret a) Q.
   Proof. intros H s Hs. simpl. auto. Qed.
@@ -62,7 +81,7 @@ Section Judgement.
   Lemma sep_weaken {T} (m : M T) (Q Q' : T -> Prop) :
     sep m Q -> (forall a, Q a -> Q' a) -> sep m Q'.
   Proof.
-    intros H W s Hs. destruct (H s Hs) as [I P]. split; auto. destruct (fst (m s)); auto.
+    intros H HW s Hs. destruct (H s Hs) as [I P]. split; auto. destruct (fst (m s)); auto.
   Qed.
 
   Lemma sep_bind {T U} (m : M T) (k : T -> M U) (Q : T -> Prop) (R : U -> Prop) :
@@ -89,7 +108,7 @@ Section Judgement.
 
   (* what is known about an object read from cell l *)
   Definition rd (l : loc) (o : obj) : Prop :=
-    (okv (VRef l) -> obj_ok o) /\ (l < b -> nth_error h0 l = Some o).
+    (okv (VRef l) -> obj_ok o) /\ (l < b -> W l \/ nth_error h0 l = Some o).
 
   Lemma sep_read l : A_closed -> sep (read l) (rd l).
   Proof.
@@ -97,15 +116,18 @@ Section Judgement.
     destruct Hs as (L & Old & Cl). split.
     - intros [Hl|Hl]; [eapply Cl; eauto|].
       destruct (Nat.lt_ge_cases l b) as [Hlt|Hge]; [|eapply Cl; eauto].
-      eapply AC; eauto. rewrite <- Old; auto.
-    - intro Hl. rewrite <- Old; auto.
+      destruct (Old l Hlt) as [Hw|He]; [apply obj_ok_all; exact (proj2 AC l Hw Hlt)|].
+      eapply (proj1 AC); eauto. rewrite <- He; exact E.
+    - intro Hl. destruct (Old l Hl) as [Hw|He]; [left; exact Hw|right; rewrite <- He; exact E].
   Qed.
 
-  Lemma sep_write l o : b <= l -> obj_ok o -> sep (write l o) (fun _ => True).
+  Lemma sep_write l o : wr l -> obj_ok o -> sep (write l o) (fun _ => True).
   Proof.
     intros Hl Ho s Hs. unfold write. destruct (l <? length (heap s)) eqn:E; simpl; split; auto.
     destruct Hs as (L & Old & Cl). unfold sinv; simpl. split; [rewrite set_nth_length; exact L|]. split.
-    - intros l' Hl'. rewrite set_nth_other by lia. auto.
+    - intros l' Hl'. destruct (Nat.eq_dec l l') as [->|Hne].
+      + left. destruct Hl as [Hl|[Hl _]]; [lia|exact Hl].
+      + rewrite set_nth_other by exact Hne. auto.
     - intros l' o' Hl' Hn. destruct (Nat.eq_dec l l') as [->|Hne].
       + apply Nat.ltb_lt in E.
         assert (nth_error (set_nth l' o (heap s)) l' = Some o).
@@ -230,11 +252,12 @@ Section Table.
   Hypothesis no_dnc : forall c k, lookup_cls ct c = Some k -> c_dnc k = false.
   Variable b : nat.
   Variable A : loc -> Prop.
+  Variable W : loc -> Prop.
   Variable h0 : list obj.
-  Hypothesis AC : A_closed b A h0.
+  Hypothesis AC : A_closed b A W h0.
 
   Local Notation okV := (okv b A).
-  Local Notation SEP := (sep b A h0).
+  Local Notation SEP := (sep b A W h0).
 
   (* values embedded in callbacks and factories *)
   Definition fn_ok (f : fn) : Prop :=
@@ -325,7 +348,7 @@ Section Table.
       + apply sep_foldM with (P := memo_ok b).
         * intros m x _ Hmm. sbind; [apply IH; exact Hmm|]. intros r Hr.
           sbind; [apply sep_read; exact AC|]. intros o' [Ho' _]. destruct o'; try apply sep_fail.
-          sbind; [apply sep_write; [exact Hl'|]|].
+          sbind; [apply sep_write; [left; exact Hl'|]|].
           { simpl. apply Forall_app_1; [apply Ho'; simpl; auto|eapply Qdc_okv; eauto]. }
           intros _ _. sret. apply Hr.
         * now apply memo_ok_cons.
@@ -337,7 +360,7 @@ Section Table.
         * intros m p _ Hmm. sbind; [apply IH; exact Hmm|]. intros rk Hrk.
           sbind; [apply IH; apply Hrk|]. intros rv Hrv.
           sbind; [apply sep_read; exact AC|]. intros o' [Ho' _]. destruct o'; try apply sep_fail.
-          sbind; [apply sep_write; [exact Hl'|]|].
+          sbind; [apply sep_write; [left; exact Hl'|]|].
           { simpl. apply Forall_app_1; [apply Ho'; simpl; auto|].
             split; simpl; eapply Qdc_okv; eauto. }
           intros _ _. sret. apply Hrv.
@@ -361,7 +384,8 @@ Section Table.
         intros m [a x] Hin Hmm.
         assert (Hdnc : forall sp, lookup_attr k a = Some sp -> a_dnc sp = true -> okV x).
         { intros sp Hsp Hd. destruct (Nat.lt_ge_cases l b) as [Hlt|Hge].
-          - eapply A_dnc; eauto.
+          - destruct (Hold Hlt) as [Hw|Hh]; [exact (proj2 AC l Hw Hlt x)|].
+            eapply A_dnc; [exact Hlt|exact Hh|exact Ek|exact Hin|exact Hsp|exact Hd].
           - assert (Hd' : Forall (fok b A) d) by (apply Ho; simpl; auto).
             rewrite Forall_forall in Hd'. exact (Hd' _ Hin). }
         eapply sep_bind with (Q := fun r : val * memo_t => okV (fst r) /\ memo_ok b (snd r)).
@@ -373,7 +397,7 @@ Section Table.
              eapply sep_weaken; [apply IH; exact Hmm|]. intros r Hr; split; [eapply Qdc_okv; eauto|apply Hr].
         * intros r [Hr1 Hr2]. sbind; [apply sep_read; exact AC|]. intros o' [Ho' _].
           destruct o'; try apply sep_fail.
-          sbind; [apply sep_write; [exact Hnew|]|].
+          sbind; [apply sep_write; [left; exact Hnew|]|].
           { simpl. apply Forall_app_1; [apply Ho'; simpl; auto|exact Hr1]. }
           intros _ _. sret. exact Hr2.
       + intros memo' Hm'.
@@ -411,12 +435,12 @@ Ltac sprim := eauto with sp.
 Ltac sbindT := eapply sep_bind with (Q := fun _ => True).
 Ltac sstep :=
   lazymatch goal with
-  | |- sep _ _ _ (ret _) _ => apply sep_ret; auto
-  | |- sep _ _ _ (fail _) _ => apply sep_fail
-  | |- sep _ _ _ (bind _ _) _ => eapply sep_bind; [ solve [sprim] | intros; cbv beta in * ]
-  | |- sep _ _ _ (let _ := _ in _) _ => cbv zeta
-  | |- sep _ _ _ (if ?c then _ else _) _ => destruct c eqn:?
-  | |- sep _ _ _ (match ?x with _ => _ end) _ => destruct x eqn:?
+  | |- sep _ _ _ _ (ret _) _ => apply sep_ret; auto
+  | |- sep _ _ _ _ (fail _) _ => apply sep_fail
+  | |- sep _ _ _ _ (bind _ _) _ => eapply sep_bind; [ solve [sprim] | intros; cbv beta in * ]
+  | |- sep _ _ _ _ (let _ := _ in _) _ => cbv zeta
+  | |- sep _ _ _ _ (if ?c then _ else _) _ => destruct c eqn:?
+  | |- sep _ _ _ _ (match ?x with _ => _ end) _ => destruct x eqn:?
   end.
 Ltac sgo := repeat sstep.
 Tactic Notation "sbi" ident(x) ident(H) := eapply sep_bind; [ solve [sprim] | intros x H; cbv beta in * ].
@@ -449,16 +473,19 @@ Section Core.
   Hypothesis wf_owner : forall c k, lookup_cls ct c = Some k -> c_owner k = c.
   Variable b : nat.
   Variable A : loc -> Prop.
+  Variable W : loc -> Prop.
   Variable h0 : list obj.
-  Hypothesis AC : A_closed b A h0.
+  Hypothesis AC : A_closed b A W h0.
   Hypothesis ct_ok : table_ok ct b A.
   Hypothesis A_dnc : dnc_allowed ct b A h0.
   Variable rec : call -> M val.
 
   Local Notation okV := (okv b A).
-  Local Notation SEP := (sep b A h0).
+  Local Notation SEP := (sep b A W h0).
   Local Notation fnOk := (fn_ok b A).
   Local Notation specOk := (spec_ok b A).
+  Local Notation wR := (wr b A W).
+  Local Notation wrV := (wrv b A W).
 
   (* an attribute name that some class of the table declares do_not_copy *)
   Definition dncname (a : aid) : bool :=
@@ -502,13 +529,13 @@ Section Core.
     (mv_uses_old m = true -> okV (mv_old m) \/ (mv_ctor m = None /\ xf_plain (mv_transform m))) /\
     prep_ok (mv_prepare m) /\ oattrs_ok (mv_attrs m) /\ xf_ok (mv_transform m) /\
     ats_ok (mv_attr_transforms m) /\
-    (mv_inplace m = true -> freshv b (mv_old m) /\ freshv b (mv_new m)).
+    (mv_inplace m = true -> wrV (mv_old m) /\ wrV (mv_new m)).
 
   Definition call_ok (k : call) : Prop :=
     match k with
-    | KSetAttr l _ v _ _ => b <= l /\ okV v
-    | KDelAttr l _ _ _ => b <= l
-    | KInit _ l kw => b <= l /\ kw_okv kw
+    | KSetAttr l _ v _ _ => wR l /\ okV v
+    | KDelAttr l _ _ _ => wR l
+    | KInit _ l kw => wR l /\ kw_okv kw
     | KConstruct _ pos kw => kwok kw /\ match pos with Some v => okV v | None => True end
     | KMutateValue m => mv_ok m
     end.
@@ -526,12 +553,20 @@ Section Core.
   (* the constructor call on the instance just allocated: keywords are arbitrary
      (InitMethod copies them) except those of do_not_copy attributes *)
   Hypothesis Hrec_top : forall c l kw s,
-    b <= l -> kwok kw -> sinv b A h0 s -> cls_at l c s -> sinv b A h0 (snd (rec (KInit c l kw) s)).
+    b <= l -> kwok kw -> sinv b A W h0 s -> cls_at l c s -> sinv b A W h0 (snd (rec (KInit c l kw) s)).
 
   Lemma apply_fn_sep f v :
     fnOk f -> (okV v \/ is_appended f = false) ->
     SEP (apply_fn f v) (fun r => r = v \/ freshv b r).
   Proof. apply sep_apply_fn; exact AC. Qed.
+
+  Lemma wr_okV l : wR l -> okV (VRef l).
+  Proof. apply wr_okv. Qed.
+  Lemma wrv_okV v : wrV v -> okV v.
+  Proof. apply wrv_okv. Qed.
+  Lemma freshv_wrV v : freshv b v -> wrV v.
+  Proof. apply freshv_wrv. Qed.
+  Local Hint Resolve freshv_wrV wr_okV wrv_okV : core.
 
   Lemma rec_sep k : call_ok k -> SEP (rec k) (fun _ => True).
   Proof. intro H. eapply sep_weaken; [apply Hrec; exact H|auto]. Qed.
@@ -553,37 +588,37 @@ Section Core.
   Proof. unfold check_typeM. sbind; [apply sep_get_heap|]. intros; now sret. Qed.
   Lemma sep_val_eqM x y : SEP (val_eqM ct x y) (fun _ => True).
   Proof. unfold val_eqM. sbind; [apply sep_get_heap|]. intros; now sret. Qed.
-  Lemma sep_read' l : SEP (read l) (rd b A h0 l).
+  Lemma sep_read' l : SEP (read l) (rd b A W h0 l).
   Proof. apply sep_read; exact AC. Qed.
 
   Hint Resolve sep_check_typeM sep_val_eqM sep_read' rec_construct0_sep
-       (protect_sep ct no_dnc b A h0 AC ct_ok A_dnc) : sp.
+       (protect_sep ct no_dnc b A W h0 AC ct_ok A_dnc) : sp.
 
   Lemma loc_of_sep v : SEP (loc_of v) (fun l => v = VRef l).
   Proof. destruct v; simpl; try apply sep_fail. now apply sep_ret. Qed.
   Lemma loc_of_t_sep v : SEP (loc_of_t v) (fun l => v = VRef l).
   Proof. destruct v; simpl; try apply sep_fail. now apply sep_ret. Qed.
 
-  Lemma read_inst_sep l : SEP (read_inst l) (fun p => rd b A h0 l (OInst (fst p) (snd p))).
+  Lemma read_inst_sep l : SEP (read_inst l) (fun p => rd b A W h0 l (OInst (fst p) (snd p))).
   Proof. unfold read_inst. sbi o Ho. destruct o; try apply sep_fail. sret. exact Ho. Qed.
   Lemma cls_of_sep c : SEP (cls_of ct c) (fun k => lookup_cls ct c = Some k).
   Proof. unfold cls_of. destruct (lookup_cls ct c) eqn:E; sgo. Qed.
   Hint Resolve loc_of_sep loc_of_t_sep read_inst_sep cls_of_sep : sp.
 
-  Lemma rd_fok l c d : rd b A h0 l (OInst c d) -> okV (VRef l) -> Forall (fok b A) d.
+  Lemma rd_fok l c d : rd b A W h0 l (OInst c d) -> okV (VRef l) -> Forall (fok b A) d.
   Proof. intros [H _] Hl. exact (H Hl). Qed.
 
-  Lemma raw_setattr_sep l a v : b <= l -> okV v -> SEP (raw_setattr l a v) (fun _ => True).
+  Lemma raw_setattr_sep l a v : wR l -> okV v -> SEP (raw_setattr l a v) (fun _ => True).
   Proof.
     intros Hl Hv. unfold raw_setattr. sbi p Hp.
     apply sep_write; [exact Hl|]. simpl. apply fok_assoc_set; auto.
-    eapply rd_fok; eauto. simpl; auto.
+    eapply rd_fok; eauto; now apply wr_okV.
   Qed.
-  Lemma raw_delattr_sep l a : b <= l -> SEP (raw_delattr l a) (fun _ => True).
+  Lemma raw_delattr_sep l a : wR l -> SEP (raw_delattr l a) (fun _ => True).
   Proof.
     intros Hl. unfold raw_delattr. sbi p Hp. destruct (assoc a (snd p)); [|apply sep_fail].
     apply sep_write; [exact Hl|]. simpl. apply fok_assoc_del.
-    eapply rd_fok; eauto. simpl; auto.
+    eapply rd_fok; eauto; now apply wr_okV.
   Qed.
   Lemma getattr_default_any l a : SEP (getattr_default ct l a) (fun _ => True).
   Proof. unfold getattr_default. sgo. Qed.
@@ -597,7 +632,7 @@ Section Core.
   Hint Resolve raw_setattr_sep raw_delattr_sep getattr_default_any : sp.
 
   Lemma thawed_sep {T} l thaw (m : M T) Q :
-    (thaw = true -> b <= l) -> SEP m Q -> SEP (thawed ct l thaw m) Q.
+    (thaw = true -> wR l) -> SEP m Q -> SEP (thawed ct l thaw m) Q.
   Proof.
     intros Hl Hm. unfold thawed. sstep. sstep; auto. sstep.
     destruct thaw; simpl; auto.
@@ -607,10 +642,10 @@ Section Core.
   Qed.
 
   Lemma thawed_val_sep {T} v thaw (m : M T) Q :
-    (thaw = true -> freshv b v) -> SEP m Q -> SEP (thawed_val ct v thaw m) Q.
+    (thaw = true -> wrV v) -> SEP m Q -> SEP (thawed_val ct v thaw m) Q.
   Proof. intros Hv Hm. destruct v; simpl; auto. apply thawed_sep; auto. Qed.
 
-  Lemma invalidate_attrs_sep l a : b <= l -> SEP (invalidate_attrs ct rec l a) (fun _ => True).
+  Lemma invalidate_attrs_sep l a : wR l -> SEP (invalidate_attrs ct rec l a) (fun _ => True).
   Proof.
     intro Hl. unfold invalidate_attrs. sstep. sstep. cbv zeta. apply sep_iterM. intros sp _.
     sstep; [|sstep]. apply sep_catch; [|sstep].
@@ -622,7 +657,7 @@ Section Core.
   Definition Qma (l : loc) (r : val) : Prop := exists l', r = VRef l' /\ (l' = l \/ b <= l').
 
   Lemma mutate_attr_sep l a v inplace tc force skip :
-    (inplace = true -> b <= l) -> okV v ->
+    (inplace = true -> wR l) -> okV v ->
     SEP (mutate_attr ct rec l a v inplace tc force skip) (Qma l).
   Proof.
     intros Hl Hv. unfold mutate_attr. sstep; [sstep; exists l; auto|]. sstep. sstep.
@@ -630,21 +665,21 @@ Section Core.
     sbindT; [sgo|]. intros _ _.
     eapply sep_bind with (Q := fun l' => (l' = l /\ inplace = true) \/ (b <= l' /\ inplace = false)).
     - destruct (negb (inplace || c_dnc a1)) eqn:C.
-      + eapply sep_bind; [apply (deepcopy_sep ct no_dnc b A h0 AC ct_ok A_dnc)|].
+      + eapply sep_bind; [apply (deepcopy_sep ct no_dnc b A W h0 AC ct_ok A_dnc)|].
         intros r [l' [-> H']]. simpl. apply sep_ret. right. split; auto.
         destruct inplace; auto; discriminate.
       + apply sep_ret. left. split; auto. destruct inplace; auto.
         simpl in C. cbv beta in *.
         match goal with H : lookup_cls _ _ = Some _ |- _ => rewrite (no_dnc _ _ H) in C end. discriminate.
     - intros l' Hl'.
-      assert (Hbl : b <= l') by (destruct Hl' as [[-> Hi]|[Hb _]]; auto).
+      assert (Hbl : wR l') by (destruct Hl' as [[-> Hi]|[Hb _]]; [auto|left; exact Hb]).
       eapply sep_bind with (Q := okV).
       + destruct (negb (inplace || c_dnc a1) && same_object (assoc a (snd a0)) v); [|now sret].
         sbi p' Hp'. sret. destruct (assoc a (snd p')) eqn:E; [|exact Hv].
-        eapply fok_assoc; [eapply rd_fok; eauto; simpl; auto|exact E].
+        eapply fok_assoc; [eapply rd_fok; eauto; now apply wr_okV|exact E].
       + intros value' Hv'. sbindT.
         * apply thawed_sep; [intros _; exact Hbl|]. sbindT; [sprim|]. intros _ _. sgo. sprim.
-        * intros _ _. sret. exists l'. split; auto.
+        * intros _ _. sret. exists l'. split; auto. destruct Hl' as [[-> _]|[Hb _]]; auto.
   Qed.
 
   Lemma run_factory_sep f : fac_ok b A f -> SEP (run_factory rec f) (freshv b).
@@ -724,13 +759,13 @@ Section Core.
     (* a value flowing through mutate_value: allowed, or the old value itself
        (top-level update/transform); fresh whenever the call is in place *)
     Definition R (v : val) : Prop :=
-      (okV v \/ (v = mv_old m /\ mv_uses_old m = true)) /\ (mv_inplace m = true -> freshv b v).
+      (okV v \/ (v = mv_old m /\ mv_uses_old m = true)) /\ (mv_inplace m = true -> wrV v).
     Definition Q3 (r : val * bool * list aid) : Prop :=
-      let '(v, safe, _) := r in R v /\ (safe = true -> freshv b v).
-    Definition Q5 (r : val * bool) : Prop := R (fst r) /\ (snd r = true -> freshv b (fst r)).
+      let '(v, safe, _) := r in R v /\ (safe = true -> wrV v).
+    Definition Q5 (r : val * bool) : Prop := R (fst r) /\ (snd r = true -> wrV (fst r)).
 
     Lemma R_fresh v : freshv b v -> R v.
-    Proof. intro H. split; auto. left. now apply freshv_okv. Qed.
+    Proof. intro H. split; [left; now apply freshv_okv|intros _; now apply freshv_wrV]. Qed.
 
     Lemma construct_args_sep c attrs :
       kw_okv attrs ->
@@ -821,7 +856,7 @@ Section Core.
                end) Q3).
         { destruct ctor; [apply construct_args_sep; exact Hattrs'|apply instantiate_args_sep]. }
         destruct (mv_expected m) as [ety|].
-        - match goal with |- sep _ _ _ (if ?c then _ else _) _ => destruct c end; [exact Hdict|].
+        - match goal with |- sep _ _ _ _ (if ?c then _ else _) _ => destruct c end; [exact Hdict|].
           destruct (is_missing value1); [exact Hmiss|sret; auto].
         - destruct (is_missing value1); [exact Hmiss|sret; auto]. }
       intros [[value2 safe2] used] [R2 S2].
@@ -836,32 +871,32 @@ Section Core.
                                     rec (KSetAttr l (fst p) (snd p) false false) ;;; ret tt))
                     (p0 :: attrs')) ;;;
            ret (value3, true)) Q5).
-        { eapply sep_bind with (Q := freshv b).
-          - destruct safe2; [sret; auto|sprim].
+        { eapply sep_bind with (Q := wrV).
+          - destruct safe2; [sret; auto|eapply sep_weaken; [sprim|auto]].
           - intros value3 H3. sbindT.
             + apply thawed_val_sep; auto. apply sep_iterM. intros p Hp.
               sstep; [sstep|]. sstep; [sstep|].
               sbi l0 Hl0. subst value3. simpl in H3.
               sbindT; [apply rec_sep; split; [exact H3|]|intros; sstep].
               unfold kw_okv in Hattrs'. rewrite Forall_forall in Hattrs'. exact (Hattrs' _ Hp).
-            + intros _ _. sret. split; simpl; auto; now apply R_fresh. }
+            + intros _ _. sret. split; simpl; auto. split; auto. }
         destruct value2; try exact Hbody; apply sep_fail. }
       intros [value3 safe3] [R3 S3]. simpl in R3, S3.
-      eapply sep_bind with (Q := fun value4 => R value4 /\ (safe3 = true -> freshv b value4)).
+      eapply sep_bind with (Q := fun value4 => R value4 /\ (safe3 = true -> wrV value4)).
       { destruct (mv_transform m) as [x|] eqn:Ex; [|sret; auto].
         eapply sep_weaken.
         - apply apply_xform_sep; [exact Hxf|].
           destruct R3 as [[H1|[-> Hu]] _]; auto. destruct (Hold Hu) as [H1|[_ H1]]; auto.
-        - intros r [->|Hr]; auto; split; auto; now apply R_fresh. }
+        - intros r [->|Hr]; [auto|split; [now apply R_fresh|auto]]. }
       intros value4 [R4 S4].
       destruct (mv_attr_transforms m) as [|q0 ats] eqn:Eats; [sret; apply R4|].
       assert (Hd : dflt_ok) by (destruct Hdf as [?|?]; [discriminate|assumption]).
-      eapply sep_bind with (Q := freshv b).
-      { destruct safe3; [sret; auto|sprim]. }
-      intros value5 H5. sbindT; [|intros; sstep; left; now apply freshv_okv].
+      eapply sep_bind with (Q := wrV).
+      { destruct safe3; [sret; auto|eapply sep_weaken; [sprim|auto]]. }
+      intros value5 H5. sbindT; [|intros; sstep; left; now apply wrv_okV].
       apply thawed_val_sep; auto. apply sep_iterM. intros p Hp.
       sbi l0 Hl0. subst value5. simpl in H5.
-      sbind; [apply getattr_default_sep; [simpl; auto|exact Hd]|]. intros cur Hcur.
+      sbind; [apply getattr_default_sep; [apply wr_okV; exact H5|exact Hd]|]. intros cur Hcur.
       sbind; [apply apply_fn_sep; [|left; exact Hcur]|].
       { rewrite Forall_forall in Hats. exact (Hats _ Hp). }
       intros t Ht. destruct (is_missing t); [sstep|].
@@ -941,16 +976,16 @@ Section Core.
   Qed.
 
   Lemma seq_inserter_sep sp coll index item ins :
-    freshv b coll -> okV item -> SEP (seq_inserter ct sp coll index item ins) (fun _ => True).
+    wrV coll -> okV item -> SEP (seq_inserter ct sp coll index item ins) (fun _ => True).
   Proof.
     intros H Hi. unfold seq_inserter. sbi ok Hok. destruct (negb ok); [apply sep_fail|].
-    sbi p Hp. destruct Hp as [-> Hp]. simpl in H. assert (Hxs : Forall okV (snd p)) by (apply Hp; simpl; auto).
+    sbi p Hp. destruct Hp as [-> Hp]. assert (Hxs : Forall okV (snd p)) by (apply Hp; now apply wrv_okV).
     destruct index; try apply sep_fail; cbv zeta.
-    - apply sep_write; auto. simpl. apply Forall_app_1; auto.
-    - destruct ins; [apply sep_write; auto; simpl; apply Forall_insert_at; auto|].
-      destruct (norm_index _ _); [|apply sep_fail]. apply sep_write; auto. simpl. apply Forall_set_at; auto.
-    - destruct ins; [apply sep_write; auto; simpl; apply Forall_insert_at; auto|].
-      destruct (norm_index _ _); [|apply sep_fail]. apply sep_write; auto. simpl. apply Forall_set_at; auto.
+    - apply sep_write; [exact H|]. simpl. apply Forall_app_1; auto.
+    - destruct ins; [apply sep_write; [exact H|]; simpl; apply Forall_insert_at; auto|].
+      destruct (norm_index _ _); [|apply sep_fail]. apply sep_write; [exact H|]. simpl. apply Forall_set_at; auto.
+    - destruct ins; [apply sep_write; [exact H|]; simpl; apply Forall_insert_at; auto|].
+      destruct (norm_index _ _); [|apply sep_fail]. apply sep_write; [exact H|]. simpl. apply Forall_set_at; auto.
   Qed.
 
   Lemma map_extractor_sep coll key r : okV coll -> okV key -> SEP (map_extractor ct coll key r) pairok.
@@ -963,26 +998,26 @@ Section Core.
   Qed.
 
   Lemma map_inserter_sep sp coll key item :
-    freshv b coll -> okV key -> okV item -> SEP (map_inserter ct sp coll key item) (fun _ => True).
+    wrV coll -> okV key -> okV item -> SEP (map_inserter ct sp coll key item) (fun _ => True).
   Proof.
     intros H Hk Hi. unfold map_inserter. sbi okk Hokk. destruct (negb okk); [apply sep_fail|].
     sbi ok Hok. destruct (negb ok); [apply sep_fail|].
-    sbi p Hp. destruct Hp as [-> Hp]. simpl in H.
-    sbind; [apply dict_assign_sep; auto; apply Hp; simpl; auto|]. intros kvs Hkvs.
-    apply sep_write; auto.
+    sbi p Hp. destruct Hp as [-> Hp].
+    sbind; [apply dict_assign_sep; auto; apply Hp; now apply wrv_okV|]. intros kvs Hkvs.
+    apply sep_write; [exact H|exact Hkvs].
   Qed.
 
   Lemma set_extractor_sep coll voi r : okV voi -> SEP (set_extractor ct coll voi r) pairok.
   Proof. intro Hv. unfold set_extractor. sgo; split; simpl; auto. Qed.
 
   Lemma set_inserter_sep sp coll index item :
-    freshv b coll -> okV item -> SEP (set_inserter ct sp coll index item) (fun _ => True).
+    wrV coll -> okV item -> SEP (set_inserter ct sp coll index item) (fun _ => True).
   Proof.
     intros H Hi. unfold set_inserter. sbi ok Hok. destruct (negb ok); [apply sep_fail|].
-    sbi p Hp. destruct Hp as [-> Hp]. simpl in H. assert (Hxs : Forall okV (snd p)) by (apply Hp; simpl; auto).
+    sbi p Hp. destruct Hp as [-> Hp]. assert (Hxs : Forall okV (snd p)) by (apply Hp; now apply wrv_okV).
     eapply sep_bind with (Q := Forall okV).
     { destruct (negb (is_missing index)); [apply set_discard_sep; auto|now sret]. }
-    intros xs1 H1. sbi b0 Hb0. apply sep_write; auto. simpl.
+    intros xs1 H1. sbi b0 Hb0. apply sep_write; [exact H|]. simpl.
     destruct b0; auto. apply Forall_app_1; auto.
   Qed.
 
@@ -995,13 +1030,13 @@ Section Core.
     ats_ok (io_attr_transforms io).
 
   Lemma mutate_collection_sep fam sp inst coll io :
-    specOk sp -> freshv b coll -> io_ok io ->
-    SEP (mutate_collection ct rec fam sp inst coll io) (freshv b).
+    specOk sp -> wrV coll -> io_ok io ->
+    SEP (mutate_collection ct rec fam sp inst coll io) wrV.
   Proof.
     intros Hsp H (Hvoi & Hnew & Hat & Hxf & Hats). unfold mutate_collection.
-    eapply sep_bind with (Q := freshv b).
-    { destruct (is_missing coll); [sprim|sret; auto]. }
-    intros coll1 H1. assert (Ho1 := freshv_okv b A _ H1).
+    eapply sep_bind with (Q := wrV).
+    { destruct (is_missing coll); [eapply sep_weaken; [sprim|auto]|sret; auto]. }
+    intros coll1 H1. assert (Ho1 := wrv_okV _ H1).
     eapply sep_bind with (Q := pairok).
     { destruct fam; [apply seq_extractor_sep|apply map_extractor_sep|apply set_extractor_sep]; auto. }
     intros ex [Hex1 Hex2]. cbv zeta.
@@ -1035,27 +1070,27 @@ Section Core.
   Qed.
 
   Lemma add_items_sep fam sp inst coll items :
-    specOk sp -> freshv b coll -> okV items ->
-    SEP (add_items ct rec fam sp inst coll items) (freshv b).
+    specOk sp -> wrV coll -> okV items ->
+    SEP (add_items ct rec fam sp inst coll items) wrV.
   Proof.
     intros Hsp H Hit. unfold add_items. destruct items; try apply sep_fail.
     sbi o Ho. destruct Ho as [Ho _]. specialize (Ho Hit).
     destruct fam, o; try apply sep_fail; simpl in Ho;
-      (apply sep_foldM with (P := freshv b); [|exact H]; intros acc x Hx Hacc;
+      (apply sep_foldM with (P := wrV); [|exact H]; intros acc x Hx Hacc;
        apply mutate_collection_sep; auto; rewrite Forall_forall in Ho; specialize (Ho _ Hx));
       try (apply io_add_ok; first [exact Ho | apply Ho]).
     destruct Ho. apply io_kv_ok; auto.
   Qed.
 
   Lemma prepare_items_sep fam sp inst coll :
-    specOk sp -> freshv b coll -> SEP (prepare_items ct rec fam sp inst coll) (freshv b).
+    specOk sp -> wrV coll -> SEP (prepare_items ct rec fam sp inst coll) wrV.
   Proof.
-    intros Hsp H. unfold prepare_items. assert (Hc := freshv_okv b A _ H). destruct fam.
-    - sbi p Hp. apply sep_foldM with (P := freshv b); [|exact H].
+    intros Hsp H. unfold prepare_items. assert (Hc := wrv_okV _ H). destruct fam.
+    - sbi p Hp. apply sep_foldM with (P := wrV); [|exact H].
       intros; apply mutate_collection_sep; auto. apply io_transform_item_ok; [exact Hsp|exact I].
     - apply add_items_sep; auto.
     - sbi p Hp. destruct Hp as [_ Hp]. specialize (Hp Hc).
-      apply sep_foldM with (P := freshv b); [|exact H].
+      apply sep_foldM with (P := wrV); [|exact H].
       intros acc x Hx Hacc; apply mutate_collection_sep; auto.
       rewrite Forall_forall in Hp. apply io_transform_item_ok; auto.
   Qed.
@@ -1072,12 +1107,12 @@ Section Core.
     { destruct coll; try (now sret); (eapply sep_weaken; [apply create_collection_sep|apply freshv_okv]). }
     intros coll1 H1. sbi ok Hok. destruct (negb ok).
     - sbind; [apply create_collection_sep|]. intros fresh Hf.
-      eapply sep_weaken; [apply add_items_sep; auto|apply freshv_okv].
+      eapply sep_weaken; [apply add_items_sep; auto|apply wrv_okV].
     - sbi t Ht. destruct (a_prepare_item sp); [|now sret].
       destruct t; [|now sret].
       sbi l Hl. subst coll1. sbi o Ho. destruct Ho as [Ho _].
       sbind; [apply sep_alloc; apply Ho; exact H1|]. intros l' Hl'.
-      eapply sep_weaken; [apply prepare_items_sep; simpl; auto|apply freshv_okv].
+      eapply sep_weaken; [apply prepare_items_sep; [exact Hsp|left; exact Hl']|apply wrv_okV].
   Qed.
 
   Lemma prepare_attr_value_sep sp inst value attrs :
@@ -1102,7 +1137,7 @@ Section Core.
     destruct value; try exact Hgen. now sret.
   Qed.
 
-  Lemma delattr_sep l a force skip : b <= l -> SEP (delattr_ ct rec l a force skip) (fun _ => True).
+  Lemma delattr_sep l a force skip : wR l -> SEP (delattr_ ct rec l a force skip) (fun _ => True).
   Proof.
     intro Hl. unfold delattr_. sbi p Hp. sbi k Hk.
     sbindT; [sgo|]. intros _ _.
@@ -1118,7 +1153,7 @@ Section Core.
   Qed.
 
   Lemma setattr_sep l a v force skip :
-    b <= l -> okV v -> SEP (setattr_ ct rec l a v force skip) (fun _ => True).
+    wR l -> okV v -> SEP (setattr_ ct rec l a v force skip) (fun _ => True).
   Proof.
     intros Hl Hv. unfold setattr_. sbi p Hp. sbi k Hk.
     eapply sep_bind with (Q := okV).
@@ -1220,7 +1255,7 @@ Section Core.
   Qed.
 
   Lemma init_tail_sep spec_cls self ks cim im top kw0 :
-    b <= self -> lookup_cls ct cim = Some im -> KWP top kw0 ->
+    wR self -> lookup_cls ct cim = Some im -> KWP top kw0 ->
     SEP (init_tail spec_cls self ks im top kw0) (fun _ => True).
   Proof.
     intros Hs Him Hkw. unfold init_tail.
@@ -1282,7 +1317,7 @@ Section Core.
     intros; now sret.
   Qed.
 
-  Lemma init_sep c self kw0 : b <= self -> kw_okv kw0 -> SEP (init_ ct rec c self kw0) (fun _ => True).
+  Lemma init_sep c self kw0 : wR self -> kw_okv kw0 -> SEP (init_ ct rec c self kw0) (fun _ => True).
   Proof.
     intros Hs Hkw. rewrite init_unfold. sbi ks Hks.
     destruct (negb (init_wrapper_ok ks kw0)); [apply sep_fail|].
@@ -1294,8 +1329,8 @@ Section Core.
 
   (* the constructor call on a freshly allocated instance of the class itself *)
   Lemma init_top c self kw0 s :
-    b <= self -> kwok kw0 -> sinv b A h0 s -> cls_at self c s ->
-    sinv b A h0 (snd (init_ ct rec c self kw0 s)).
+    b <= self -> kwok kw0 -> sinv b A W h0 s -> cls_at self c s ->
+    sinv b A W h0 (snd (init_ ct rec c self kw0 s)).
   Proof.
     intros Hs Hkw Hinv [d Hd]. rewrite init_unfold.
     unfold cls_of at 1. destruct (lookup_cls ct c) as [ks|] eqn:Ek; [|exact Hinv].
@@ -1306,18 +1341,18 @@ Section Core.
         unfold read. rewrite Hd. reflexivity. }
     cbn [fst]. rewrite bind_ok with (a := ks) (s1 := s) by (unfold cls_of; rewrite Ek; reflexivity).
     rewrite (wf_owner c ks Ek), Nat.eqb_refl.
-    refine (proj1 (init_tail_sep c self ks c ks true kw0 Hs Ek _ s Hinv)).
+    refine (proj1 (init_tail_sep c self ks c ks true kw0 (or_introl Hs) Ek _ s Hinv)).
     right. split; auto.
   Qed.
 
   Lemma sep_alloc_then {T} o (k : loc -> M T) (Q : T -> Prop) :
     obj_ok b A o ->
-    (forall l s1, b <= l -> sinv b A h0 s1 -> nth_error (heap s1) l = Some o ->
-       sinv b A h0 (snd (k l s1)) /\ match fst (k l s1) with Ok a => Q a | Err _ => True end) ->
+    (forall l s1, b <= l -> sinv b A W h0 s1 -> nth_error (heap s1) l = Some o ->
+       sinv b A W h0 (snd (k l s1)) /\ match fst (k l s1) with Ok a => Q a | Err _ => True end) ->
     SEP (l <- alloc o ;; k l) Q.
   Proof.
     intros Ho Hk s Hs. unfold bind at 1. unfold alloc at 1.
-    destruct (sep_alloc b A h0 o Ho s Hs) as [I1 L]. simpl in I1, L.
+    destruct (sep_alloc b A W h0 o Ho s Hs) as [I1 L]. simpl in I1, L.
     apply Hk; auto. simpl. rewrite nth_error_app2 by lia. rewrite Nat.sub_diag. reflexivity.
   Qed.
 
@@ -1351,8 +1386,8 @@ Section Core.
   Qed.
 
   Theorem body_top c l kw s :
-    b <= l -> kwok kw -> sinv b A h0 s -> cls_at l c s ->
-    sinv b A h0 (snd (body ct rec (KInit c l kw) s)).
+    b <= l -> kwok kw -> sinv b A W h0 s -> cls_at l c s ->
+    sinv b A W h0 (snd (body ct rec (KInit c l kw) s)).
   Proof. simpl. apply init_top. Qed.
 End Core.
 
@@ -1363,15 +1398,16 @@ Section Exec.
   Hypothesis wf_owner : forall c k, lookup_cls ct c = Some k -> c_owner k = c.
   Variable b : nat.
   Variable A : loc -> Prop.
+  Variable W : loc -> Prop.
   Variable h0 : list obj.
-  Hypothesis AC : A_closed b A h0.
+  Hypothesis AC : A_closed b A W h0.
   Hypothesis ct_ok : table_ok ct b A.
   Hypothesis A_dnc : dnc_allowed ct b A h0.
 
   Theorem exec_sep fuel :
-    (forall k, call_ok ct b A k -> sep b A h0 (exec ct fuel k) (post b A k)) /\
-    (forall c l kw s, b <= l -> kwok ct b A kw -> sinv b A h0 s -> cls_at l c s ->
-       sinv b A h0 (snd (exec ct fuel (KInit c l kw) s))).
+    (forall k, call_ok ct b A W k -> sep b A W h0 (exec ct fuel k) (post b A k)) /\
+    (forall c l kw s, b <= l -> kwok ct b A kw -> sinv b A W h0 s -> cls_at l c s ->
+       sinv b A W h0 (snd (exec ct fuel (KInit c l kw) s))).
   Proof.
     induction fuel as [|f [IH1 IH2]]; simpl.
     - split; [intros; apply sep_fail|intros; assumption].
@@ -1386,8 +1422,9 @@ End Exec.
 Section ReachSep.
   Variable b : nat.
   Variable A : loc -> Prop.
+  Variable W : loc -> Prop.
   Variable h0 : list obj.
-  Hypothesis AC : A_closed b A h0.
+  Hypothesis AC : A_closed b A W h0.
 
   Lemma vrefs_okv xs l : Forall (okv b A) xs -> In l (vrefs xs) -> b <= l \/ A l.
   Proof.
@@ -1410,12 +1447,14 @@ Section ReachSep.
 
   (* everything reachable from an allowed or fresh location is allowed or fresh *)
   Theorem sinv_reach s l0 l :
-    sinv b A h0 s -> (b <= l0 \/ A l0) -> reach (heap s) l0 l -> b <= l \/ A l.
+    sinv b A W h0 s -> (b <= l0 \/ A l0) -> reach (heap s) l0 l -> b <= l \/ A l.
   Proof.
     intros (L & Old & Cl) H0 R. induction R as [|l o l' R IH Hn Hin]; auto.
     eapply obj_ok_refs; [|exact Hin].
     destruct (Nat.lt_ge_cases l b) as [Hlt|Hge].
-    - destruct IH as [IH|IH]; [lia|]. eapply AC; eauto. rewrite <- Old; auto.
+    - destruct IH as [IH|IH]; [lia|].
+      destruct (Old l Hlt) as [Hw|He]; [apply obj_ok_all; exact (proj2 AC l Hw Hlt)|].
+      eapply (proj1 AC); [exact IH|exact Hlt|]. rewrite <- He; exact Hn.
     - eapply Cl; eauto.
   Qed.
 End ReachSep.
@@ -1428,21 +1467,24 @@ Section Helpers.
   Hypothesis wf_owner : forall c k, lookup_cls ct c = Some k -> c_owner k = c.
   Variable b : nat.
   Variable A : loc -> Prop.
+  Variable W : loc -> Prop.
   Variable h0 : list obj.
-  Hypothesis AC : A_closed b A h0.
+  Hypothesis AC : A_closed b A W h0.
   Hypothesis ct_ok : table_ok ct b A.
   Hypothesis A_dnc : dnc_allowed ct b A h0.
 
   Local Notation okV := (okv b A).
-  Local Notation SEP := (sep b A h0).
+  Local Notation SEP := (sep b A W h0).
   Local Notation specOk := (spec_ok b A).
+  Local Notation wR := (wr b A W).
+  Local Notation wrV := (wrv b A W).
   Notation rec := (exec ct XFUEL).
-  Let Hrec := proj1 (exec_sep ct no_dnc wf_owner b A h0 AC ct_ok A_dnc XFUEL).
+  Let Hrec := proj1 (exec_sep ct no_dnc wf_owner b A W h0 AC ct_ok A_dnc XFUEL).
   Local Opaque exec XFUEL.
 
-  Local Hint Resolve (read_inst_sep b A h0 AC) (cls_of_sep ct b A h0)
-    (getattr_default_any ct b A h0 AC) (protect_sep ct no_dnc b A h0 AC ct_ok A_dnc)
-    (read_list_sep b A h0 AC) (read_dict_sep b A h0 AC) (read_set_sep b A h0 AC) : sp.
+  Local Hint Resolve (read_inst_sep b A W h0 AC) (cls_of_sep ct b A W h0)
+    (getattr_default_any ct b A W h0 AC) (protect_sep ct no_dnc b A W h0 AC ct_ok A_dnc)
+    (read_list_sep b A W h0 AC) (read_dict_sep b A W h0 AC) (read_set_sep b A W h0 AC) : sp.
 
   Definition hargs_ok (h : hargs) : Prop :=
     Forall okV (h_pos h) /\ okV (h_index h) /\ oattrs_ok b A (h_kw h) /\
@@ -1451,9 +1493,20 @@ Section Helpers.
   (* the helper forms covered: copy-on-write everywhere; in place for the
      helpers that never read the attribute through getattr(obj, name, default) *)
   Definition inplace_form (hp : helper) : Prop :=
-    match hp with HWith _ | HReset _ | HResetTop | HUpdateTop | HTransformTop => True | _ => False end.
+    match hp with
+    | HWith _ | HUpdate _ | HTransform _ | HReset _ | HResetTop | HUpdateTop | HTransformTop => True
+    | _ => False
+    end.
+  (* in place: the receiver cell is writable; update(_new_value, _inplace=True) works on
+     the object handed in, which then has to be writable too *)
   Definition form_ok (l : loc) (hp : helper) (h : hargs) : Prop :=
-    (h_inplace h = true -> b <= l /\ inplace_form hp /\ Forall (freshv b) (h_pos h)) /\
+    (h_inplace h = true ->
+       wR l /\ inplace_form hp /\
+       match hp with
+       | HUpdateTop => wrV (pos0 h)
+       | HUpdate _ | HTransform _ => dflt_ok ct b A
+       | _ => True
+       end) /\
     match hp with
     | HTransformTop => match h_fn h with Some f => is_appended f = false | None => True end
     | HUpdate a | HTransform a => dncname ct a = false \/ dflt_ok ct b A
@@ -1480,34 +1533,40 @@ Section Helpers.
   Lemma spec_for_sep' l a :
     SEP (spec_for ct l a)
         (fun r => specOk (snd r) /\ a_name (snd r) = a /\ In (fst r) ct /\ In (snd r) (c_attrs (fst r)) /\
-                  (l < b -> exists c d, nth_error h0 l = Some (OInst c d) /\
+                  (l < b -> W l \/ exists c d, nth_error h0 l = Some (OInst c d) /\
                                         lookup_cls ct c = Some (fst r) /\ lookup_attr (fst r) a = Some (snd r))).
   Proof.
     unfold spec_for. sbi p Hp. sbi k Hk. destruct (lookup_attr k a) eqn:E; [|apply sep_fail].
     sret. simpl. destruct (lookup_attr_in _ _ _ E) as [Hin Hn].
     split; [eapply lookup_attr_ok; eauto|]. split; [exact Hn|]. split; [eapply lookup_cls_in; eauto|].
-    split; [exact Hin|]. intro Hl. destruct Hp as [_ Hp]. exists (fst p), (snd p). auto.
+    split; [exact Hin|]. intro Hl. destruct Hp as [_ Hp].
+    destruct (Hp Hl) as [Hw|Hh]; [left; exact Hw|right; exists (fst p), (snd p); auto].
   Qed.
 
   (* the old value handed to mutate_value by update_<attr> / transform_<attr> *)
-  Lemma current_value_sep l sp k used :
+  Lemma current_value_sep l sp k inplace used :
     In k ct -> In sp (c_attrs k) ->
     (dncname ct (a_name sp) = false \/ dflt_ok ct b A) ->
-    (l < b -> exists c d, nth_error h0 l = Some (OInst c d) /\
+    (l < b -> W l \/ exists c d, nth_error h0 l = Some (OInst c d) /\
                           lookup_cls ct c = Some k /\ lookup_attr k (a_name sp) = Some sp) ->
-    SEP (current_value ct l sp false used) (fun r => used = true -> okV r).
+    (inplace = true -> okV (VRef l) /\ dflt_ok ct b A) ->
+    SEP (current_value ct l sp inplace used) (fun r => used = true -> okV r).
   Proof.
-    intros Hk Hsp Hd Hold. unfold current_value.
-    eapply sep_bind with (Q := fun v => a_dnc sp = true -> okV v).
+    intros Hk Hsp Hd Hold Hinp. unfold current_value.
+    eapply sep_bind with (Q := fun v => (inplace = true \/ a_dnc sp = true) -> okV v).
     { unfold getattr_default. sbi p Hp. destruct (assoc (a_name sp) (snd p)) eqn:E.
-      - sret. intro Hdnc. destruct (Nat.lt_ge_cases l b) as [Hlt|Hge].
-        + destruct (Hold Hlt) as (c & d & H1 & H2 & H3). destruct Hp as [_ Hp]. rewrite (Hp Hlt) in H1.
-          inversion H1; subst. eapply A_dnc; eauto. apply assoc_in. exact E.
-        + eapply fok_assoc; [|exact E]. eapply rd_fok; eauto. simpl; auto.
-      - sbi k' Hk'. sret. intro Hdnc.
-        destruct Hd as [Hd|Hd]; [rewrite (dncname_true ct k sp Hk Hsp Hdnc) in Hd; discriminate|].
-        eapply Hd; eauto. }
-    intros v Hv. simpl. destruct (a_dnc sp); simpl.
+      - sret. intros [Hi|Hdnc].
+        + eapply fok_assoc; [|exact E]. eapply rd_fok; eauto. apply Hinp; exact Hi.
+        + destruct (Nat.lt_ge_cases l b) as [Hlt|Hge].
+          * destruct (Hold Hlt) as [Hw|(c & d & H1 & H2 & H3)]; [exact (proj2 AC l Hw Hlt v)|].
+            destruct Hp as [_ Hp]. destruct (Hp Hlt) as [Hw|Hh]; [exact (proj2 AC l Hw Hlt v)|].
+            rewrite Hh in H1. inversion H1; subst. eapply A_dnc; eauto. apply assoc_in. exact E.
+          * eapply fok_assoc; [|exact E]. eapply rd_fok; eauto. simpl; auto.
+      - sbi k' Hk'. sret. intros [Hi|Hdnc].
+        + eapply (proj2 (Hinp Hi)); eauto.
+        + destruct Hd as [Hd|Hd]; [rewrite (dncname_true ct k sp Hk Hsp Hdnc) in Hd; discriminate|].
+          eapply Hd; eauto. }
+    intros v Hv. destruct inplace; simpl; [sret; auto|]. destruct (a_dnc sp); simpl.
     - sret. auto.
     - destruct used; simpl; [|sret; discriminate].
       eapply sep_weaken; [sprim|]. intros r Hr _. now apply freshv_okv.
@@ -1530,7 +1589,7 @@ Section Helpers.
   Proof. intros _ [l' [-> [->|H]]]; [right; reflexivity|left; simpl; auto]. Qed.
 
   Lemma with_attr_sep l sp new attrs inplace :
-    specOk sp -> okV new -> oattrs_ok b A attrs -> (inplace = true -> b <= l) ->
+    specOk sp -> okV new -> oattrs_ok b A attrs -> (inplace = true -> wR l) ->
     SEP (with_attr ct l sp new attrs inplace) (Qh l).
   Proof.
     intros Hsp Hn Ha Hi. unfold with_attr.
@@ -1544,12 +1603,14 @@ Section Helpers.
   Qed.
 
   Lemma target_sep l inplace :
-    (inplace = true -> b <= l) ->
-    SEP (if inplace then ret l else (v <- deepcopy ct (VRef l) ;; loc_of v)) (fun l' => b <= l').
-  Proof. intro H. destruct inplace; [sret; auto|apply copy_loc_sep]. Qed.
+    (inplace = true -> wR l) ->
+    SEP (if inplace then ret l else (v <- deepcopy ct (VRef l) ;; loc_of v)) (fun l' => wR l').
+  Proof.
+    intro H. destruct inplace; [sret; auto|eapply sep_weaken; [apply copy_loc_sep|intros l' Hl'; left; exact Hl']].
+  Qed.
 
   Lemma item_tail_sep l a c inplace :
-    okV c -> (inplace = true -> b <= l) ->
+    okV c -> (inplace = true -> wR l) ->
     SEP (mutate_attr ct rec l a c inplace false false false) (Qh l).
   Proof.
     intros Hc Hi. eapply sep_weaken; [eapply mutate_attr_sep; eauto|]. intros r Hr. apply Qma_Qh; auto.
@@ -1562,19 +1623,21 @@ Section Helpers.
     destruct (negb (h_if h)); [sret; right; reflexivity|].
     assert (Hp0 : okV (pos0 h)) by (apply nth_okv; exact Hpos).
     assert (Hp1 : okV (pos1 h)) by (apply nth_okv; exact Hpos).
-    assert (Hbl : h_inplace h = true -> b <= l) by (intro E; apply Hinp; exact E).
-    destruct hp; try contradiction.
+    assert (Hbl : h_inplace h = true -> wR l) by (intro E; apply Hinp; exact E).
+    destruct hp.
     - (* HWith *) sbind; [apply spec_for_sep|]. intros r Hr. apply with_attr_sep; auto.
     - (* HUpdate *)
-      destruct (h_inplace h) eqn:Ein; [destruct (Hinp eq_refl) as (_ & [] & _)|].
       assert (Hgen : SEP
         (r <- spec_for ct l a ;; let sp := snd r in
-         old <- current_value ct l sp false (is_sentinel (pos0 h)) ;;
+         old <- current_value ct l sp (h_inplace h) (is_sentinel (pos0 h)) ;;
          v <- rec (KMutateValue (mkmv old (pos0 h) false PNone (h_kw h)
                                       (Some (ctor_of_ty (a_ty sp))) (Some (a_ty sp)) None [] false)) ;;
-         with_attr ct l sp v None false) (Qh l)).
+         with_attr ct l sp v None (h_inplace h)) (Qh l)).
       { sbind; [apply spec_for_sep'|]. intros r (Hsp & Hname & Hk & Hin & Hold). cbv zeta.
-        sbind; [eapply current_value_sep; eauto; rewrite Hname; auto|]. intros old Hold'.
+        sbind; [eapply (current_value_sep l (snd r) (fst r));
+                [exact Hk|exact Hin|rewrite Hname; exact Hform|rewrite Hname; exact Hold|
+                 intro E; destruct (Hinp E) as (Hw & _ & Hd); split; [eapply wr_okv; exact Hw|exact Hd]]|].
+        intros old Hold'.
         eapply sep_bind with (Q := okV).
         { eapply sep_weaken; [apply Hrec; simpl; unfold mv_ok; simpl|].
           - split; [exact Hp0|]. split; [intro Hu; left; apply Hold'; apply uses_old_sentinel; exact Hu|].
@@ -1582,54 +1645,55 @@ Section Helpers.
           - simpl. intros v [Hv|[-> [Hu|Hu]]]; auto.
             + apply Hold'. apply uses_old_sentinel. exact Hu.
             + apply Hold'. rewrite Hu. reflexivity. }
-        intros v Hv. apply with_attr_sep; [exact Hsp|exact Hv|exact I|discriminate]. }
+        intros v Hv. apply with_attr_sep; [exact Hsp|exact Hv|exact I|exact Hbl]. }
       destruct (pos0 h); try exact Hgen. sret. right; reflexivity.
     - (* HTransform *)
-      destruct (h_inplace h) eqn:Ein; [destruct (Hinp eq_refl) as (_ & [] & _)|].
       sbind; [apply spec_for_sep'|]. intros r (Hsp & Hname & Hk & Hin & Hold). cbv zeta.
-      sbind; [eapply current_value_sep; eauto; rewrite Hname; auto|]. intros old Hold'.
-      specialize (Hold' eq_refl).
+      sbind; [eapply (current_value_sep l (snd r) (fst r));
+              [exact Hk|exact Hin|rewrite Hname; exact Hform|rewrite Hname; exact Hold|
+               intro E; destruct (Hinp E) as (Hw & _ & Hd); split; [eapply wr_okv; exact Hw|exact Hd]]|].
+      intros old Hold'. specialize (Hold' eq_refl).
       eapply sep_bind with (Q := okV).
       { eapply sep_weaken; [apply Hrec; simpl; unfold mv_ok; simpl|].
         - split; [exact I|]. split; [intro Hu; left; exact Hold'|].
           split; [exact I|]. split; [exact I|]. split; [destruct (h_fn h); simpl; auto|].
           split; [exact Hkwfn|]. discriminate.
         - simpl. intros v [Hv|[-> _]]; auto. }
-      intros v Hv. apply with_attr_sep; [exact Hsp|exact Hv|exact I|discriminate].
+      intros v Hv. apply with_attr_sep; [exact Hsp|exact Hv|exact I|exact Hbl].
     - (* HReset *)
       sbind; [apply target_sep; exact Hbl|]. intros l' Hl'.
-      sbindT; [|intros; sret; left; simpl; auto].
+      sbindT; [|intros; sret; left; eapply wr_okv; exact Hl'].
       eapply thawed_sep; eauto. eapply sep_weaken; [apply Hrec; exact Hl'|auto].
     - (* HWithItem *)
       destruct (h_inplace h) eqn:Ein; [destruct (Hinp eq_refl) as (_ & [] & _)|].
       sbind; [apply spec_for_sep|]. intros r Hr. cbv zeta.
       sbind; [apply mk_mutator_sep|]. intros c Hc.
-      eapply sep_bind with (Q := freshv b).
+      eapply sep_bind with (Q := wrV).
       { destruct (family_of (a_ty (snd r))) as [[| |]|]; try apply sep_fail;
-          (eapply mutate_collection_sep; eauto; unfold io_ok; simpl;
+          (eapply mutate_collection_sep; eauto; [now apply freshv_wrv|]; unfold io_ok; simpl;
            (split; [|split; [|split; [exact Hkw|split; [exact I|apply ats_ok_nil]]]])); auto; try exact I.
         - destruct (h_pos h) as [|k0 t]; [exact I|]. inversion Hpos; auto.
         - destruct (h_pos h) as [|k0 [|v0 t]]; try exact I. inversion Hpos as [|? ? _ H2]; inversion H2; auto. }
-      intros c' Hc'. apply item_tail_sep; [now apply freshv_okv|discriminate].
+      intros c' Hc'. apply item_tail_sep; [eapply wrv_okv; exact Hc'|discriminate].
     - (* HUpdateItem *)
       destruct (h_inplace h) eqn:Ein; [destruct (Hinp eq_refl) as (_ & [] & _)|].
       sbind; [apply spec_for_sep|]. intros r Hr. cbv zeta.
       sbind; [apply mk_mutator_sep|]. intros c Hc.
-      eapply sep_bind with (Q := freshv b).
+      eapply sep_bind with (Q := wrV).
       { destruct (family_of (a_ty (snd r))) as [[| |]|]; try apply sep_fail;
-          (eapply mutate_collection_sep; eauto; unfold io_ok; simpl;
+          (eapply mutate_collection_sep; eauto; [now apply freshv_wrv|]; unfold io_ok; simpl;
            (split; [exact Hp0|split; [exact Hp1|split; [exact Hkw|split; [exact I|apply ats_ok_nil]]]])). }
-      intros c' Hc'. apply item_tail_sep; [now apply freshv_okv|discriminate].
+      intros c' Hc'. apply item_tail_sep; [eapply wrv_okv; exact Hc'|discriminate].
     - (* HTransformItem *)
       destruct (h_inplace h) eqn:Ein; [destruct (Hinp eq_refl) as (_ & [] & _)|].
       sbind; [apply spec_for_sep|]. intros r Hr. cbv zeta.
       sbind; [apply mk_mutator_sep|]. intros c Hc.
-      eapply sep_bind with (Q := freshv b).
+      eapply sep_bind with (Q := wrV).
       { destruct (family_of (a_ty (snd r))) as [fam|]; try apply sep_fail.
-        eapply mutate_collection_sep; eauto. unfold io_ok; simpl.
+        eapply mutate_collection_sep; eauto; [now apply freshv_wrv|]. unfold io_ok; simpl.
         split; [exact Hp0|split; [exact I|split; [exact I|split; [|exact Hkwfn]]]].
         destruct (h_fn h); [exact Hfn|exact I]. }
-      intros c' Hc'. apply item_tail_sep; [now apply freshv_okv|discriminate].
+      intros c' Hc'. apply item_tail_sep; [eapply wrv_okv; exact Hc'|discriminate].
     - (* HWithoutItem *)
       destruct (h_inplace h) eqn:Ein; [destruct (Hinp eq_refl) as (_ & [] & _)|].
       sbind; [apply spec_for_sep|]. intros r Hr. cbv zeta.
@@ -1643,23 +1707,23 @@ Section Helpers.
           destruct (fst ex); try apply sep_fail; try (now sret); cbv zeta.
           + sbi p Hp. destruct Hp as [-> Hp]. simpl in Hc. specialize (Hp Hoc).
             destruct (norm_index _ _); [|apply sep_fail].
-            apply sep_write; auto. simpl. now apply Forall_remove_at.
+            apply sep_write; [left; exact Hc|]. simpl. now apply Forall_remove_at.
           + sbi p Hp. destruct Hp as [-> Hp]. simpl in Hc. specialize (Hp Hoc).
             destruct (norm_index _ _); [|apply sep_fail].
-            apply sep_write; auto. simpl. now apply Forall_remove_at.
+            apply sep_write; [left; exact Hc|]. simpl. now apply Forall_remove_at.
         - sbind; [eapply map_extractor_sep; eauto|]. intros ex _.
           sbi p Hp. destruct Hp as [-> Hp]. simpl in Hc. specialize (Hp Hoc). sbi h' Hh.
-          apply sep_write; auto. unfold obj_ok. apply Forall_filter. exact Hp.
+          apply sep_write; [left; exact Hc|]. unfold obj_ok. apply Forall_filter. exact Hp.
         - sbind; [eapply set_extractor_sep; eauto|]. intros ex _.
           sbi p Hp. destruct Hp as [-> Hp]. simpl in Hc. specialize (Hp Hoc).
           sbind; [eapply set_discard_sep; eauto|]. intros xs Hxs.
-          apply sep_write; auto. }
+          apply sep_write; [left; exact Hc|exact Hxs]. }
       intros _ _. apply item_tail_sep; [exact Hoc|discriminate].
     - (* HUpdateTop *)
       eapply sep_weaken; [apply Hrec; simpl; unfold mv_ok; simpl|simpl; intros r [Hr|[-> _]]; [left; exact Hr|right; reflexivity]].
       split; [exact Hp0|]. split; [intros _; right; split; [reflexivity|exact I]|]. split; [exact I|].
       split; [exact Hkw|]. split; [exact I|]. split; [apply ats_ok_nil|].
-      intro E. destruct (Hinp E) as (Hl & _ & Hf). split; [exact Hl|apply nth_freshv; exact Hf].
+      intro E. destruct (Hinp E) as (Hl & _ & Hf). split; [exact Hl|exact Hf].
     - (* HTransformTop *)
       eapply sep_weaken; [apply Hrec; simpl; unfold mv_ok; simpl|simpl; intros r [Hr|[-> _]]; [left; exact Hr|right; reflexivity]].
       split; [exact I|]. split; [intros _; right; split; [reflexivity|destruct (h_fn h); simpl; auto]|].
@@ -1667,7 +1731,7 @@ Section Helpers.
       split; [exact Hkwfn|]. intro E. destruct (Hinp E) as (Hl & _ & Hf). split; [exact Hl|exact I].
     - (* HResetTop *)
       sbind; [apply target_sep; exact Hbl|]. intros l' Hl'.
-      sbi p Hp. sbi k Hk. sbindT; [|intros; sret; left; simpl; auto].
+      sbi p Hp. sbi k Hk. sbindT; [|intros; sret; left; eapply wr_okv; exact Hl'].
       eapply thawed_sep; eauto. apply sep_iterM. intros sp _.
       apply sep_catch; [|now sret].
       sbindT; [eapply sep_weaken; [apply Hrec; exact Hl'|auto]|]. intros; now sret.
@@ -1682,22 +1746,23 @@ Section Step.
   Hypothesis wf_owner : forall c k, lookup_cls ct c = Some k -> c_owner k = c.
   Variable b : nat.
   Variable A : loc -> Prop.
+  Variable W : loc -> Prop.
   Variable h0 : list obj.
-  Hypothesis AC : A_closed b A h0.
+  Hypothesis AC : A_closed b A W h0.
   Hypothesis ct_ok : table_ok ct b A.
   Hypothesis A_dnc : dnc_allowed ct b A h0.
 
   Local Notation okV := (okv b A).
-  Local Notation SEP := (sep b A h0).
-  Let Hrec := proj1 (exec_sep ct no_dnc wf_owner b A h0 AC ct_ok A_dnc XFUEL).
+  Local Notation SEP := (sep b A W h0).
+  Let Hrec := proj1 (exec_sep ct no_dnc wf_owner b A W h0 AC ct_ok A_dnc XFUEL).
   Local Opaque exec XFUEL.
 
   Definition op_ok (roots : list val) (o : op) : Prop :=
     match o with
     | OpConstruct c pos kw => kwok ct b A kw /\ match pos with Some v => okV v | None => True end
-    | OpSetAttr x a v => freshv b (nth x roots VNone) /\ okV v
-    | OpDelAttr x a => freshv b (nth x roots VNone)
-    | OpHelper x hp h => hargs_ok ct b A h /\ forall l, nth x roots VNone = VRef l -> form_ok ct b A l hp h
+    | OpSetAttr x a v => wrv b A W (nth x roots VNone) /\ okV v
+    | OpDelAttr x a => wrv b A W (nth x roots VNone)
+    | OpHelper x hp h => hargs_ok ct b A h /\ forall l, nth x roots VNone = VRef l -> form_ok ct b A W l hp h
     | OpDeepCopy x => True
     | OpAlloc ob => obj_ok b A ob
     end.
@@ -1728,6 +1793,8 @@ End Step.
 
 (* ------------------------------------------------------------------ *)
 (** * Instantiating the allowed set *)
+Definition NoW : loc -> Prop := fun _ => False.   (* copy-on-write calls: no old cell may be written *)
+
 Definition reach_from (h0 : list obj) (R : loc -> Prop) (l : loc) : Prop :=
   exists l0, R l0 /\ reach h0 l0 l.
 
@@ -1753,8 +1820,9 @@ Proof.
     apply H. apply in_vrefs. rewrite <- E. now apply in_map.
 Qed.
 
-Lemma reach_from_closed b h0 (R : loc -> Prop) : A_closed b (reach_from h0 R) h0.
+Lemma reach_from_closed b h0 (R : loc -> Prop) : A_closed b (reach_from h0 R) NoW h0.
 Proof.
+  split; [|intros l []].
   intros l o [l0 [H0 Hr]] Hl Hn. apply obj_ok_of_refs. intros l' Hin. right.
   exists l0. split; auto. eapply reach_step; eauto.
 Qed.
@@ -1813,7 +1881,7 @@ Proof.
   split; [now apply ofn_scalar_ok|]. destruct (a_factory sp); auto using fac_scalar_ok.
 Qed.
 
-Lemma sinv_start h0 A s : heap s = h0 -> sinv (length h0) A h0 s.
+Lemma sinv_start h0 A W s : heap s = h0 -> sinv (length h0) A W h0 s.
 Proof.
   intros <-. split; [lia|]. split; [auto|]. intros l o Hl Hn.
   apply nth_error_None in Hl. congruence.
@@ -1858,7 +1926,7 @@ Section Theorems.
     set (h0 := heap s). set (b := length h0).
     set (R := fun l0 => arg_loc h l0 \/ dnc_value ct h0 l0 \/ dflt_loc ct l0).
     set (A := reach_from h0 R).
-    assert (AC : A_closed b A h0) by apply reach_from_closed.
+    assert (AC : A_closed b A NoW h0) by apply reach_from_closed.
     assert (Tok : table_ok ct b A) by (apply scalar_table_ok; exact Hscalar).
     assert (Adnc : dnc_allowed ct b A h0) by (apply reach_from_dnc; intros; unfold R; auto).
     assert (Hd : dflt_ok ct b A).
@@ -1873,13 +1941,13 @@ Section Theorems.
         exists kw, a. auto.
       - split; [|right; exact Hd]. eapply Forall_impl; [|exact Hkwfn]. intros p Hp. now apply fn_scalar_ok.
       - now apply ofn_scalar_ok. }
-    assert (Hform : form_ok ct b A l hp h).
+    assert (Hform : form_ok ct b A NoW l hp h).
     { split; [rewrite Hin; discriminate|]. destruct hp; simpl; auto. }
-    destruct (run_helper_sep ct no_dnc wf_owner b A h0 AC Tok Adnc l hp h Hargs Hform s
-                (sinv_start h0 A s eq_refl)) as [Hs' Hq].
+    destruct (run_helper_sep ct no_dnc wf_owner b A NoW h0 AC Tok Adnc l hp h Hargs Hform s
+                (sinv_start h0 A NoW s eq_refl)) as [Hs' Hq].
     rewrite Hrun in Hs', Hq. simpl in Hs', Hq.
     destruct Hq as [Hq|Hq]; [right|left; inversion Hq; reflexivity].
-    intros l' Hr. destruct (sinv_reach b A h0 AC s' r' l' Hs' Hq Hr) as [H|[l0 [H1 H2]]]; [left; exact H|right].
+    intros l' Hr. destruct (sinv_reach b A NoW h0 AC s' r' l' Hs' Hq Hr) as [H|[l0 [H1 H2]]]; [left; exact H|right].
     exists l0. split; auto.
   Qed.
 
@@ -1891,13 +1959,13 @@ Section Theorems.
   Proof.
     intros Hrun. set (h0 := heap s). set (b := length h0).
     set (A := reach_from h0 (dnc_value ct h0)).
-    assert (AC : A_closed b A h0) by apply reach_from_closed.
+    assert (AC : A_closed b A NoW h0) by apply reach_from_closed.
     assert (Tok : table_ok ct b A) by (apply scalar_table_ok; exact Hscalar).
     assert (Adnc : dnc_allowed ct b A h0) by (apply reach_from_dnc; auto).
-    destruct (deepcopy_sep ct no_dnc b A h0 AC Tok Adnc (VRef l) s (sinv_start h0 A s eq_refl)) as [Hs' Hq].
+    destruct (deepcopy_sep ct no_dnc b A NoW h0 AC Tok Adnc (VRef l) s (sinv_start h0 A NoW s eq_refl)) as [Hs' Hq].
     rewrite Hrun in Hs', Hq. simpl in Hs', Hq. destruct Hq as [l'' [E Hl'']]. inversion E; subst l''.
     split; [exact Hl''|]. intros l' Hr.
-    destruct (sinv_reach b A h0 AC s' r' l' Hs' (or_introl Hl'') Hr) as [H|[l0 [H1 H2]]]; [left; exact H|right].
+    destruct (sinv_reach b A NoW h0 AC s' r' l' Hs' (or_introl Hl'') Hr) as [H|[l0 [H1 H2]]]; [left; exact H|right].
     exists l0. auto.
   Qed.
 
@@ -1915,19 +1983,19 @@ Section Theorems.
     intros Hrun. set (h0 := heap s). set (b := length h0).
     set (R := fun l0 => ctor_arg_loc pos kw l0 \/ dnc_value ct h0 l0).
     set (A := reach_from h0 R).
-    assert (AC : A_closed b A h0) by apply reach_from_closed.
+    assert (AC : A_closed b A NoW h0) by apply reach_from_closed.
     assert (Tok : table_ok ct b A) by (apply scalar_table_ok; exact Hscalar).
     assert (Adnc : dnc_allowed ct b A h0) by (apply reach_from_dnc; intros; unfold R; auto).
-    assert (Hok : call_ok ct b A (KConstruct c pos kw)).
+    assert (Hok : call_ok ct b A NoW (KConstruct c pos kw)).
     { simpl. split.
       - intros a v Hv. destruct (dncname ct a) eqn:E; [left|right; reflexivity].
         destruct v; simpl; auto. apply okv_root. left. right. exists a. auto.
       - destruct pos as [v|]; auto. destruct v; simpl; auto. apply okv_root. left. left. reflexivity. }
-    destruct (proj1 (exec_sep ct no_dnc wf_owner b A h0 AC Tok Adnc XFUEL) _ Hok s
-                (sinv_start h0 A s eq_refl)) as [Hs' Hq].
+    destruct (proj1 (exec_sep ct no_dnc wf_owner b A NoW h0 AC Tok Adnc XFUEL) _ Hok s
+                (sinv_start h0 A NoW s eq_refl)) as [Hs' Hq].
     rewrite Hrun in Hs', Hq. simpl in Hs', Hq.
     split; [exact Hq|]. intros l' Hr.
-    destruct (sinv_reach b A h0 AC s' r l' Hs' (or_introl Hq) Hr) as [H|[l0 [H1 H2]]]; [left; exact H|right].
+    destruct (sinv_reach b A NoW h0 AC s' r l' Hs' (or_introl Hq) Hr) as [H|[l0 [H1 H2]]]; [left; exact H|right].
     exists l0. auto.
   Qed.
 
@@ -1940,16 +2008,16 @@ Section Theorems.
   Proof.
     intros Hk Hsp Hrun. set (h0 := heap s). set (b := length h0).
     set (A := reach_from h0 (dnc_value ct h0)).
-    assert (AC : A_closed b A h0) by apply reach_from_closed.
+    assert (AC : A_closed b A NoW h0) by apply reach_from_closed.
     assert (Tok : table_ok ct b A) by (apply scalar_table_ok; exact Hscalar).
     assert (Adnc : dnc_allowed ct b A h0) by (apply reach_from_dnc; auto).
     assert (Hspok : spec_ok b A sp) by (destruct (Tok k Hk) as [H _]; apply H; exact Hsp).
-    destruct (exec_sep ct no_dnc wf_owner b A h0 AC Tok Adnc XFUEL) as [E1 E2].
-    destruct (lookup_default_value_sep ct no_dnc b A h0 AC Tok Adnc (exec ct XFUEL) E1 sp k Hspok s
-                (sinv_start h0 A s eq_refl)) as [Hs' Hq].
+    destruct (exec_sep ct no_dnc wf_owner b A NoW h0 AC Tok Adnc XFUEL) as [E1 E2].
+    destruct (lookup_default_value_sep ct no_dnc b A NoW h0 AC Tok Adnc (exec ct XFUEL) E1 sp k Hspok s
+                (sinv_start h0 A NoW s eq_refl)) as [Hs' Hq].
     rewrite Hrun in Hs', Hq. simpl in Hs', Hq.
     split; [exact Hq|]. intros r l' -> Hr. simpl in Hq.
-    destruct (sinv_reach b A h0 AC s' r l' Hs' (or_introl Hq) Hr) as [H|[l0 [H1 H2]]]; [left; exact H|right].
+    destruct (sinv_reach b A NoW h0 AC s' r l' Hs' (or_introl Hq) Hr) as [H|[l0 [H1 H2]]]; [left; exact H|right].
     exists l0. auto.
   Qed.
 End Theorems.
@@ -1981,8 +2049,8 @@ Section Isolation.
   Definition NoA : loc -> Prop := fun _ => False.
   Local Notation okV := (okv nd NoA).
 
-  Lemma NoA_closed : A_closed nd NoA h0.
-  Proof. intros l o []. Qed.
+  Lemma NoA_closed : A_closed nd NoA NoW h0.
+  Proof. split; [intros l o []|intros l []]. Qed.
   Lemma NoA_dnc : dnc_allowed ct nd NoA h0.
   Proof. intros l c d k a sp x Hl Hn. exfalso. eapply h0_plain; eauto. Qed.
   Lemma NoA_okv_fresh v : okV v -> freshv nd v.
@@ -1993,6 +2061,9 @@ Section Isolation.
      update_/transform_<attr> only copy-on-write and on attributes that are not
      do_not_copy; in place: assignment, deletion, with_<attr>, reset_<attr>,
      reset, update, transform (see inplace_form) *)
+  Definition hist_inplace_form (hp : helper) : Prop :=
+    match hp with HWith _ | HReset _ | HResetTop | HUpdateTop | HTransformTop => True | _ => False end.
+
   Definition hist_op_ok (o : op) : Prop :=
     match o with
     | OpConstruct c pos kw => kwok ct nd NoA kw /\ match pos with Some v => okV v | None => True end
@@ -2001,7 +2072,7 @@ Section Isolation.
     | OpHelper x hp h =>
         nd <= x /\ Forall okV (h_pos h) /\ okV (h_index h) /\ oattrs_ok nd NoA (h_kw h) /\
         h_kwfn h = [] /\ ofn_scalar (h_fn h) /\
-        (h_inplace h = true -> inplace_form hp) /\
+        (h_inplace h = true -> hist_inplace_form hp) /\
         match hp with
         | HTransformTop => match h_fn h with Some f => is_appended f = false | None => True end
         | HUpdate a | HTransform a => dncname ct a = false
@@ -2020,28 +2091,32 @@ Section Isolation.
     - rewrite app_nth2 by exact Hge. destruct (x - length roots) as [|n]; simpl; auto. destruct n; exact I.
   Qed.
 
-  Lemma hist_op_sound roots o : roots_ok roots -> hist_op_ok o -> op_ok ct nd NoA roots o.
+  Lemma hist_op_sound roots o : roots_ok roots -> hist_op_ok o -> op_ok ct nd NoA NoW roots o.
   Proof.
     intros Hr. destruct o; simpl; auto.
-    - intros [H1 H2]. split; auto.
+    - intros [H1 H2]. split; auto. apply freshv_wrv. apply Hr; exact H1.
+    - intro H1. apply freshv_wrv. apply Hr; exact H1.
     - intros (Hx & Hpos & Hidx & Hkw & Hkwfn & Hfn & Hinp & Hform). split.
       + split; [exact Hpos|]. split; [exact Hidx|]. split; [exact Hkw|].
         split; [rewrite Hkwfn; apply ats_ok_nil|now apply ofn_scalar_ok].
       + intros l Hl. split.
-        * intro Ei. specialize (Hr x Hx). rewrite Hl in Hr. simpl in Hr.
-          split; [exact Hr|]. split; [auto|]. eapply Forall_impl; [|exact Hpos]. apply NoA_okv_fresh.
+        * intro Ei. specialize (Hr x Hx). rewrite Hl in Hr. simpl in Hr. specialize (Hinp Ei).
+          split; [left; exact Hr|]. destruct hp; simpl in Hinp; try contradiction; split; auto.
+          apply freshv_wrv. apply NoA_okv_fresh. unfold pos0.
+          destruct (nth_in_or_default 0 (h_pos h) VMissing) as [Hin|E]; [|rewrite E; exact I].
+          rewrite Forall_forall in Hpos. exact (Hpos _ Hin).
         * destruct hp; auto.
   Qed.
 
   Theorem defaults_isolated ops : forall s roots,
-    sinv nd NoA h0 s -> nd <= length roots -> roots_ok roots ->
+    sinv nd NoA NoW h0 s -> nd <= length roots -> roots_ok roots ->
     Forall (fun p => hist_op_ok (fst p)) ops ->
-    sinv nd NoA h0 (fst (run_ops ct s roots ops)).
+    sinv nd NoA NoW h0 (fst (run_ops ct s roots ops)).
   Proof.
     induction ops as [|[o fa] t IH]; intros s roots Hs Hlen Hr Hops; simpl; [exact Hs|].
     inversion Hops as [|? ? Ho Ht]; subst. simpl in Ho.
-    assert (Hs0 : sinv nd NoA h0 (mkst (heap s) 0 fa)) by exact Hs.
-    destruct (step_sep ct no_dnc wf_owner nd NoA h0 NoA_closed (scalar_table_ok ct nd NoA Hscalar) NoA_dnc
+    assert (Hs0 : sinv nd NoA NoW h0 (mkst (heap s) 0 fa)) by exact Hs.
+    destruct (step_sep ct no_dnc wf_owner nd NoA NoW h0 NoA_closed (scalar_table_ok ct nd NoA Hscalar) NoA_dnc
                 roots o (hist_op_sound roots o Hr Ho) _ Hs0) as [Hs' Hq].
     destruct (step ct roots o (mkst (heap s) 0 fa)) as [r s'] eqn:E. simpl in Hs', Hq.
     apply IH; auto.
